@@ -5,6 +5,7 @@ import (
 	"os"
 	"os/exec"
 	"path/filepath"
+	"strings"
 	"testing"
 )
 
@@ -21,6 +22,36 @@ func TestCompile(t *testing.T) {
 		os.WriteFile(filepath.Join(d, "gen.go"), []byte(gp.Source), 0644)
 	}
 	cmd := exec.Command("go", "build", "./...")
+	cmd.Dir = dir
+	cmd.Env = append(os.Environ(), "GOFLAGS=-mod=mod", "GOPROXY=off", "GOSUMDB=off", "GOTOOLCHAIN=local")
+	out, err := cmd.CombinedOutput()
+	if err != nil {
+		t.Errorf("%s", out)
+	}
+}
+
+// TestCatalogueCompiles: every catalogue item is ordinary type-correct Go and its entry runs without panicking.
+func TestCatalogueCompiles(t *testing.T) {
+	dir := t.TempDir()
+	os.WriteFile(filepath.Join(dir, "go.mod"), []byte("module example.com/gen\n\ngo 1.22\n\nrequire github.com/goose-lang/goose v0.0.0\n\nreplace github.com/goose-lang/goose => /repo\n"), 0644)
+	sum, _ := os.ReadFile("/repo/go.sum")
+	os.WriteFile(filepath.Join(dir, "go.sum"), sum, 0644)
+	all := append(append([]Item{}, Catalogue...), FarOutside...)
+	for i, it := range all {
+		decls, entry := it.Instantiate(i+1, "Entry")
+		src := "package main\n\n"
+		if strings.Contains(decls+entry, "machine.") {
+			src += "import \"github.com/goose-lang/goose/machine\"\n\n"
+		}
+		for _, imp := range it.Imports() {
+			src += "import \"" + imp + "\"\n\n"
+		}
+		src += decls + "\n" + entry + "\nfunc main() {\n\t_ = Entry\n}\n"
+		d := filepath.Join(dir, fmt.Sprintf("c%d", i))
+		os.MkdirAll(d, 0755)
+		os.WriteFile(filepath.Join(d, "gen.go"), []byte(src), 0644)
+	}
+	cmd := exec.Command("go", "vet", "./...")
 	cmd.Dir = dir
 	cmd.Env = append(os.Environ(), "GOFLAGS=-mod=mod", "GOPROXY=off", "GOSUMDB=off", "GOTOOLCHAIN=local")
 	out, err := cmd.CombinedOutput()
